@@ -549,6 +549,40 @@ fn bulk_store_grid(r: &mut Runner) {
             }
         }
     }
+    // BatchesByIds with long lists in several orders
+    {
+        let all_ids: Vec<u64> = reference.iter().map(|x| x.0).collect();
+        let mut lists: Vec<Vec<u64>> = vec![];
+        for len in [25usize, 300, all_ids.len()] {
+            let asc: Vec<u64> = all_ids.iter().copied().step_by((all_ids.len() / len).max(1)).take(len).collect();
+            let mut desc = asc.clone();
+            desc.reverse();
+            let mut eo: Vec<u64> = asc.iter().copied().filter(|i| i % 2 == 0).collect();
+            eo.extend(asc.iter().copied().filter(|i| i % 2 == 1));
+            let mut with_unknown = desc.clone();
+            with_unknown.insert(1, u64::MAX);
+            with_unknown.push(0);
+            lists.extend([asc, desc, eo, with_unknown]);
+        }
+        for q in lists {
+            let got: Result<BatchesResponse, String> = w.query(QueryMsg::BatchesByIds { ids: q.clone() });
+            n += 1;
+            let mut want: Vec<u64> = q.iter().copied().filter(|i| reference.iter().any(|r| r.0 == *i)).collect();
+            want.sort();
+            want.dedup();
+            match got {
+                Ok(resp) => {
+                    let mut g: Vec<u64> = resp.batches.iter().map(|b| b.id).collect();
+                    g.sort();
+                    g.dedup();
+                    if g != want {
+                        push(viol("C17", "bulk.batches_by_ids", format!("BatchesByIds with {} ids (first {:?}, last {:?}) returned {} distinct existing batches, {} were requested and exist", q.len(), q.first(), q.last(), g.len(), want.len())), json!({"query": "BatchesByIds", "ids": q.len(), "first": q.first(), "last": q.last()}), &mut viols);
+                    }
+                }
+                Err(e) => push(viol("C17", "bulk.batches_by_ids.error", format!("BatchesByIds with {} ids failed: {e}", q.len())), json!({"query": "BatchesByIds", "ids": q.len()}), &mut viols),
+            }
+        }
+    }
     let pstarts: Vec<Option<u64>> = vec![None, Some(0), Some(9_999), Some(10_000), Some(10_001), Some(13_000), Some(*packets.last().unwrap()), Some(u64::MAX)];
     for sa in &pstarts {
         for lim in &limits {
